@@ -207,3 +207,26 @@ Proof.
   induction tbl as [|[k c] tbl IH]; intros H; [reflexivity|].
   cbn [chain_of_flags]. rewrite (H k c) by now left. apply IH. intros k' ch' Hin. apply (H k' ch'). now right.
 Qed.
+Lemma flag_env_config_default : forall fl flags config env i,
+  length flags = NF -> length env = NF -> length config = NF -> (i < NF)%nat ->
+  nth i SETTINGS_KIND 9 = 0 -> nth i SETTINGS_DEFAULT_KIND 9 <> 2 ->
+  let r := f_opt (resolved fl flags config env i) in
+  (forall v, f_opt (src_flag fl flags i) = Some v -> r = Some v) /\
+  (f_opt (src_flag fl flags i) = None -> forall v, f_opt (src_env env i) = Some v -> r = Some v) /\
+  (f_opt (src_flag fl flags i) = None -> f_opt (src_env env i) = None ->
+   forall v, f_opt (src_config config i) = Some v -> r = Some v) /\
+  (f_opt (src_flag fl flags i) = None -> f_opt (src_env env i) = None -> f_opt (src_config config i) = None ->
+   r = with_default (nth i SETTINGS_DEFAULT_KIND 9) (nth i SETTINGS_DEFAULT_CONST 9) None).
+Proof.
+  intros fl flags config env i Lf Le Lc Hi K D r. unfold r.
+  rewrite (resolved_option fl flags config env Lf Le Lc i Hi K).
+  assert (W : forall v, with_default (nth i SETTINGS_DEFAULT_KIND 9) (nth i SETTINGS_DEFAULT_CONST 9) (Some v) = Some v).
+  { intros v. unfold with_default. destruct (nth i SETTINGS_DEFAULT_KIND 9) as [|[[q|q|]|[q|q|]|]]; try reflexivity.
+    now contradiction D. }
+  repeat split.
+  - intros v E. rewrite E. cbn [first_some fold_right or_opt]. apply W.
+  - intros E1 v E2. rewrite E1, E2. cbn [first_some fold_right or_opt]. apply W.
+  - intros E1 E2 v E3. rewrite E1, E2, E3. cbn [first_some fold_right or_opt]. apply W.
+  - intros E1 E2 E3. now rewrite E1, E2, E3.
+Qed.
+
